@@ -26,9 +26,81 @@ pub fn generate_c17(r: &mut Rng, tier: &str, emit: &mut dyn FnMut(String)) {
     }
 }
 
+/// C20: records that arrive without the rest of a service or outlive it - NSEC next to an
+/// address answer (no PTR in the packet), NSEC / SRV / TXT alone, one record type with a much
+/// longer TTL than the others - under a hostname search, a browse or accept_unsolicited; every
+/// search is stopped, every TTL passes, then the metrics are read.
+pub fn gen_leftovers(r: &mut Rng) -> String {
+    use mdns_sd::verif::parser::{RDataView, RecDesc};
+    let mut cmds: Vec<String> = vec![format!("daemon {}", ifaces_of(0, false))];
+    cmds.push("ipint 0 100000".to_string());
+    let mut now = 1_000_000u64;
+    cmds.push(format!("run {}", now));
+    let inst = gen_inst(r, 0);
+    let kind = r.below(3);
+    match kind {
+        0 => cmds.push(format!("resolve 0 1 {} none", hx(&inst.host))),
+        1 => cmds.push(format!("browse 0 1 {}", hx(&inst.ty))),
+        _ => cmds.push("accept 0 1".to_string()),
+    }
+    cmds.push(format!("run {}", now));
+    let pool: &[u32] = &[1, 2, 5, 10, 120];
+    let nsec = |name: &str, ttl: u32| RecDesc {
+        name: name.to_string(),
+        ty: 47,
+        class: 0x8001,
+        ttl,
+        rdata: RDataView::Nsec { next: name.to_string(), bitmap: vec![0x40, 0, 0, 8] },
+    };
+    let mut max_ttl = 0u32;
+    for _ in 0..r.range(1, 4) {
+        let t = Ttls { ptr: *r.pick(pool), srv: *r.pick(pool), txt: *r.pick(pool), addr: *r.pick(pool) };
+        let nt = *r.pick(pool);
+        max_ttl = max_ttl.max(t.ptr).max(t.srv).max(t.txt).max(t.addr).max(nt);
+        let recs = recs_of(&inst, &t, true);
+        let full = recs[1].name.clone();
+        let pkt = match r.below(7) {
+            // the Apple way: address answer plus NSEC for the host, no PTR
+            0 | 1 => {
+                let mut a = recs[3..].to_vec();
+                a.push(nsec(&inst.host, nt));
+                raw_response(&a, &[])
+            }
+            2 => raw_response(&[nsec(&inst.host, nt)], &[]),
+            3 => raw_response(&[nsec(&full, nt)], &recs[1..3]),
+            4 => response(&recs[1..2], &[]),
+            5 => response(&recs[2..3], &[]),
+            _ => {
+                let mut add = recs[1..].to_vec();
+                add.push(nsec(&full, nt));
+                add.push(nsec(&inst.host, nt));
+                raw_response(&recs[..1], &add)
+            }
+        };
+        cmds.push(format!("inject 0 2 1 192.168.1.50 5353 {}", pkt));
+        now += *r.pick(&[0u64, 500, 1500, 4000]);
+        cmds.push(format!("run {}", now));
+    }
+    match kind {
+        0 => cmds.push(format!("stopresolve 0 {}", hx(&inst.host))),
+        1 => cmds.push(format!("stopbrowse 0 {}", hx(&inst.ty))),
+        _ => {}
+    }
+    cmds.push(format!("run {}", now));
+    now += max_ttl as u64 * 1000 + *r.pick(&[3_000u64, 60_000, 300_000]);
+    cmds.push(format!("run {}", now));
+    cmds.push("metrics 0 9".to_string());
+    cmds.push(format!("run {}", now));
+    format!("sim C20 {}", cmds.join(" ; "))
+}
+
 pub fn generate_c20(r: &mut Rng, tier: &str, emit: &mut dyn FnMut(String)) {
     let n = if tier == "thorough" { 2000 } else { 200 };
-    for _ in 0..n {
+    for i in 0..n {
+        if i % 4 == 3 {
+            emit(gen_leftovers(r));
+            continue;
+        }
         // long tails: every TTL of the scripted records (<= 4500 s) has passed at the end
         let st = r.range(3, 10);
         let tl = *r.pick(&[20_000u64, 200_000, 5_000_000, 5_000_000]);
